@@ -110,10 +110,36 @@ theorem C04_refine_erase_at (hswo : SWO lt) (N : Nat) (s : SSet α) (h : s.Inv l
   · exact ⟨d1, hsort, (perm_erase_unique hswo (elems_nodup N s h) p1 (hr.2.symm.trans q1) hxx hy').symm⟩
   · exact absurd ⟨x, hmem, hxx⟩ hno
 
+/-- `C04_refine_insert` read on the hand-written model (`Bridge/SmallSetBridge.insert_eq` ties it to the generated member) -/
+theorem insert_rep (hswo : SWO lt) (N : Nat) (s : SSet α) (h : s.Inv lt N) (a : List α) (hr : Rep lt s a) (v : α) :
+    (s.insert lt N v).1.Inv lt N ∧ Rep lt (s.insert lt N v).1 (insertVal lt a v).1 := by
+  obtain ⟨r, hg, hi, _, hrep⟩ := C04_refine_insert hswo N s h a hr v
+  rw [insert_eq lt N s v h.excl] at hg
+  have : r = insertR lt N s v := (Option.some.inj hg).symm
+  subst this
+  exact ⟨hi, hrep⟩
+
+theorem insertRange_rep (hswo : SWO lt) (N : Nat) : ∀ (vs : List α) (s : SSet α) (a : List α), s.Inv lt N → Rep lt s a →
+    (s.insertRange lt N vs).Inv lt N ∧ Rep lt (s.insertRange lt N vs) (insertAll lt a vs)
+  | [], s, a, h, hr => by simpa [SSet.insertRange, insertAll] using ⟨h, hr⟩
+  | v :: vs, s, a, h, hr => by
+    obtain ⟨h1, r1⟩ := insert_rep hswo N s h a hr v
+    have := insertRange_rep hswo N vs (s.insert lt N v).1 (insertVal lt a v).1 h1 r1
+    simpa [SSet.insertRange, insertAll] using this
+
+/-- `insert(first, last)` as generated from the source (inline scan while the set is inline, the rest of the range handed to the
+    backing set in one call) refines inserting the range element by element into the `std::set` -/
+theorem C04_refine_insert_range (hswo : SWO lt) (N : Nat) (s : SSet α) (h : s.Inv lt N) (a : List α) (hr : Rep lt s a)
+    (vs : List α) :
+    ∃ r, Gen.SmallSet.insert_range lt N s vs = some r ∧ r.1.Inv lt N ∧ Rep lt r.1 (insertAll lt a vs) := by
+  obtain ⟨⟨r, hg, he, _⟩, _⟩ := C04_gen_history hswo N s h vs
+  obtain ⟨hi, hrep⟩ := insertRange_rep hswo N vs s a h hr
+  exact ⟨r, hg, he ▸ hi, he ▸ hrep⟩
+
 /-! ### histories -/
 
 inductive SOp (α : Type) where
-  | ins (v : α) | del (k : α) | clr
+  | ins (v : α) | del (k : α) | clr | insR (vs : List α)
 
 /-- what the caller observes: the boolean of `insert`, the count of `erase(key)`, nothing for `clear` -/
 inductive SOut where
@@ -125,12 +151,14 @@ def stepG (lt : α → α → Bool) (N : Nat) (s : SSet α) : SOp α → Option 
   | .ins v => (Gen.SmallSet.insert lt N s v).map (fun r => (r.1, SOut.flag r.2.1.2))
   | .del k => (Gen.SmallSet.erase lt N s k).map (fun r => (r.1, SOut.cnt r.2.1))
   | .clr => (Gen.SmallSet.clear lt N s).map (fun r => (r.1, SOut.unit))
+  | .insR vs => (Gen.SmallSet.insert_range lt N s vs).map (fun r => (r.1, SOut.unit))
 
 /-- one step of the specification: a `std::set` as a strictly increasing list -/
 def stepA (lt : α → α → Bool) (a : List α) : SOp α → List α × SOut
   | .ins v => ((insertVal lt a v).1, SOut.flag (insertVal lt a v).2.2)
   | .del k => ((eraseKey lt a k).1, SOut.cnt (eraseKey lt a k).2.1)
   | .clr => ([], SOut.unit)
+  | .insR vs => (insertAll lt a vs, SOut.unit)
 
 def runG (lt : α → α → Bool) (N : Nat) : SSet α → List (SOp α) → Option (SSet α × List SOut)
   | s, [] => some (s, [])
@@ -155,9 +183,12 @@ theorem C04_refines_step (hswo : SWO lt) (N : Nat) (s : SSet α) (h : s.Inv lt N
   | clr =>
     obtain ⟨r, hg, hi, hrep⟩ := C04_refine_clear (lt := lt) N s h
     exact ⟨r.1, SOut.unit, by simp [stepG, hg], hi, rfl, hrep⟩
+  | insR vs =>
+    obtain ⟨r, hg, hi, hrep⟩ := C04_refine_insert_range hswo N s h a hr vs
+    exact ⟨r.1, SOut.unit, by simp [stepG, hg], hi, rfl, hrep⟩
 
 /-- **every history**: from any state that satisfies the invariant and any `std::set` holding the same elements, every finite
-    sequence of `insert` / `erase(key)` / `clear` runs without undefined behaviour, gives the caller exactly the answers the
+    sequence of `insert` / `erase(key)` / `clear` / `insert(first, last)` runs without undefined behaviour, gives the caller exactly the answers the
     `std::set` gives, and ends in a state that satisfies the invariant and still holds the same elements as the `std::set` -/
 theorem C04_refines_history (hswo : SWO lt) (N : Nat) (ops : List (SOp α)) :
     ∀ (s : SSet α) (a : List α), s.Inv lt N → Rep lt s a →
@@ -192,7 +223,7 @@ theorem C04_refines_observe (hswo : SWO lt) (N : Nat) (s : SSet α) (h : s.Inv l
 /-! ### the hypotheses are satisfiable and the run is not trivial: N = 2, grow at the third insertion, drain to empty (back to the
 inline state), refill -/
 def exOps : List (SOp Nat) :=
-  [.ins 3, .ins 1, .ins 3, .ins 2, .ins 9, .del 1, .del 7, .del 3, .del 2, .del 9, .ins 5, .clr, .ins 4]
+  [.ins 3, .ins 1, .ins 3, .ins 2, .ins 9, .del 1, .del 7, .del 3, .del 2, .del 9, .ins 5, .clr, .ins 4, .insR [8, 4, 6, 8]]
 
 def exLt : Nat → Nat → Bool := fun a b => decide (a < b)
 theorem exLt_swo : SWO exLt := C12.natLt_swo
